@@ -308,3 +308,13 @@ func (o *Outcome) digest() string {
 }
 
 func (o *Outcome) equal(p *Outcome) bool { return o.digest() == p.digest() }
+
+// immutabilityProp: which property a "value changed after it was
+// returned" finding belongs to in this check.
+func (e *env) immutabilityProp() string {
+	switch e.prop {
+	case "C13", "C16":
+		return e.prop
+	}
+	return "C12"
+}
